@@ -215,7 +215,7 @@ def r20b(ctx):
 
 def r20c(ctx):
     repo = ctx.repo
-    ctx.rule("R20c", "entries: one loop over body.headers, level filter against the TOC's outline level", floor=3)
+    ctx.rule("R20c", "entries: one loop over body.headers, level filter against the TOC's outline level, applied before numbering", floor=5)
     f = repo.func("TOC.fill")
     loops = [n for n in walk_no_nested(f.node) if isinstance(n, ast.For) and isinstance(n.iter, ast.Attribute) and n.iter.attr == "headers"]
     ok = len(loops) == 1
@@ -255,6 +255,26 @@ def r20c(ctx):
     ctx.instance("R20c", f"{f.file}:{f.ident}", "numbering called with the heading's level", ok=okn)
     if not okn:
         ctx.report("R20c", f, loop, "numbering level", "the hierarchical number is not computed from the heading's level")
+    # headings outside the depth do not advance the counters (scripts/headers.py filters before it touches them)
+    if num and lvl_guard:
+        ng = structural_guards(num[0], stop=loop)
+        okf = any(t is lvl_guard[0] and not pol for t, pol in ng)
+        ctx.instance("R20c", f"{f.file}:{f.ident}", "the numbering counters advance only for headings that pass the level filter", ok=okf, nontrivial=True, line=num[0].lineno)
+        if not okf:
+            ctx.report("R20c", f, num[0], f"{norm(num[0], 50)} runs before the level filter",
+                       "TOC.fill advances the hierarchical counters for headings deeper than the TOC's outline level, which are not listed: a hidden heading that skips a "
+                       "level pre-seeds the shallower counters and the next listed heading gets a wrong number (and the TOC disagrees with odfdo-headers --depth, which "
+                       "filters first)")
+    g = repo.find_func("scripts.headers:header_numbering")
+    if g is not None:
+        first_touch = [n for n in walk_no_nested(g.node) if isinstance(n, (ast.Subscript, ast.Call)) and any(
+            isinstance(x, ast.Name) and x.id == "level_indexes" for x in ast.walk(n)) and not isinstance(getattr(n, "ctx", None), ast.Load)]
+        filt = [n for n in body_no_doc(g.node) if isinstance(n, ast.If) and any(isinstance(c, ast.Compare) and isinstance(c.ops[0], ast.Gt) for c in ast.walk(n.test))
+                and n.body and isinstance(n.body[-1], ast.Return)]
+        okh = bool(filt) and all(x.lineno > filt[0].lineno for x in first_touch)
+        ctx.instance("R20c", f"{g.file}:{g.ident}", "the script filters by depth before it touches the counters", ok=okh, line=g.node.lineno)
+        if not okh:
+            ctx.report("R20c", g, g.node, "depth filter after counter update", "odfdo-headers advances the counters for headings beyond --depth")
 
 
 def _numbering_consts(repo: Repo, f: FuncInfo) -> dict:
@@ -328,6 +348,8 @@ from ..selftest import Seed, unparse_seed  # noqa: E402
 _TOC = "src/odfdo/toc.py"
 _HS = "src/odfdo/scripts/headers.py"
 SEEDS = [
+    Seed("TOC numbers a heading before the level filter", "fault", "src/odfdo/toc.py", '            if level is None or level > outline_level:\n                continue\n            number_str = self._header_numbering(level_indexes, level)\n',
+         "            number_str = self._header_numbering(level_indexes, level)\n            if level is None or level > outline_level:\n                continue\n", "R20c"),
     Seed("entry built from str(header) again", "fault", _TOC, 'Paragraph(f"{number_str} {header.inner_text}")', 'Paragraph(f"{number_str} {header}")', "R20a"),
     Seed("entry built with str() call", "fault", _TOC, 'Paragraph(f"{number_str} {header.inner_text}")', 'Paragraph(number_str + " " + str(header))', "R20a"),
     Seed("entry built through a local", "fault", _TOC,
